@@ -269,9 +269,11 @@ def run_findzc(samples, t, step, rate, width, eid, limit=5, history=None):
             pass
         wav.insert(secs(p * M, rate), pack(ins))
     st, ret, hung = "ok", -1, False
-    old = signal.signal(signal.SIGALRM, _alarm)
-    signal.alarm(limit)
+    # the budget is CPU time of this process (ITIMER_VIRTUAL), not wall time: a search that does not terminate burns CPU, a
+    # worker that is merely not scheduled on a busy machine does not
+    old = signal.signal(signal.SIGVTALRM, _alarm)
     try:
+        signal.setitimer(signal.ITIMER_VIRTUAL, float(limit))
         r = wav.findNearestZeroCrossing(secs(t, rate), secs(step, rate))
         x = Fraction(r) * rate * M
         k = round(x)
@@ -281,8 +283,8 @@ def run_findzc(samples, t, step, rate, width, eid, limit=5, history=None):
     except Exception as ex:  # noqa
         st = type(ex).__name__
     finally:
-        signal.alarm(0)
-        signal.signal(signal.SIGALRM, old)
+        signal.setitimer(signal.ITIMER_VIRTUAL, 0)
+        signal.signal(signal.SIGVTALRM, old)
     return {"id": eid, "fam": "zc", "op": "findZc", "samples": samples, "args": {"t": t, "step": step}, "st": st, "ret": ret,
             "hung": hung, "M": M, "rate": rate, "width": width}
 
